@@ -195,7 +195,23 @@ def search(ctx, fails):
             if d > 1e-10 * float(np.abs(full).max()):
                 return {"config": m["config"], "params": m["params"], "events": m["events"], "violation": "full amplitude != sum of chain amplitudes", "max_abs_diff": d}
             nev = len(next(iter(p4.values())))
+            chain_res0 = [[str(r) for r in ch.inner] for ch in amp.decay_group.chains]
+            for r in [str(x) for x in amp.res]:
+                with amp.temp_used_res([r]):
+                    sub = np.array(amp.decay_group.get_amp(data))
+                want = sum(pc for pc, cr in zip(per, chain_res0) if r in cr)
+                dd = float(np.abs(sub - want).max())
+                if dd > 1e-10 * float(np.abs(full).max()):
+                    return {"config": m["config"], "params": m["params"], "events": m["events"], "violation": "selecting resonance %s does not give the partial sum of its chains" % r,
+                            "chains": chain_res0, "max_abs_diff": dd}
             data["weight"] = np.array(m.get("weights", [1.0] * nev))
+            ref, _ = fit_fractions(amp, data, batch=nev)
+            for b in (1, max(1, nev - 1)):
+                new = fit_fractions(amp, data, batch=b, method="new", res=list(amp.res)).get_frac_grad(sum_diag=False)[0]
+                for k in new:
+                    if abs(float(new[k]) - float(ref[k])) > 1e-9:
+                        return {"config": m["config"], "params": m["params"], "events": m["events"], "weights": m.get("weights"),
+                                "violation": "fit_fractions(method='new', batch=%d) differs from the un-batched value" % b, "key": str(k), "new": float(new[k]), "reference": float(ref[k])}
             vals = {}
             for b in (1, max(1, nev - 1), nev, nev + 3):
                 ff, _ = fit_fractions(amp, data, batch=b)
